@@ -574,4 +574,31 @@ theorem rom_accepts_general_lemma (cr : CryptoOps) (hl : CryptoLaws cr) (sg : Si
     hver hentry hW hE hloc hO hdis hMac
   exact ⟨r, hr, q1, q2, q3, q4, q5, q6, q7, by rw [q8]; exact hsk, by rw [q9]; exact hcc, by rw [q10]; exact hic⟩
 
+/-! ### the executable recogniser is sound -/
+
+theorem crtBlobB_sound (d : Bytes) (h : crtBlobB d = true) : CrtBlob d := by
+  unfold crtBlobB at h
+  split at h
+  · next a b c p body =>
+    exact ⟨p.toNat, body, p.toNat_lt, by simpa using h⟩
+  · cases h
+
+theorem shapeOk_sound (c : Cfg) (s : StdCsf) (fast : Bool) (gaps : List (List Cmd)) (h : shapeOk c s fast gaps = true) :
+    GenCfg c s fast gaps := by
+  unfold shapeOk at h
+  simp only [Bool.and_eq_true, decide_eq_true_eq, List.all_eq_true] at h
+  obtain ⟨⟨⟨⟨⟨⟨⟨⟨⟨h1, h2⟩, h3⟩, h4⟩, h5⟩, h6⟩, h7⟩, h8⟩, h9⟩, h10⟩ := h
+  exact { cmds := h1, gaps := h2, srkSrc := h3, imgSlot := ⟨h4, h5⟩, kek := h6, keySlot := h7,
+          srkBlob := crtBlobB_sound _ h8, csfCert := crtBlobB_sound _ h9, imgCert := crtBlobB_sound _ h10 }
+
+theorem genShape_sound_lemma (c : Cfg) (s : StdCsf) (fast : Bool) (gaps : List (List Cmd))
+    (h : genShape c = some (s, fast, gaps)) : GenCfg c s fast gaps := by
+  unfold genShape at h
+  simp only at h
+  split at h
+  · next hk => injection h with h; injection h with h1 h; injection h with h2 h3; subst h1 h2 h3; exact shapeOk_sound _ _ _ _ hk
+  · split at h
+    · next hk => injection h with h; injection h with h1 h; injection h with h2 h3; subst h1 h2 h3; exact shapeOk_sound _ _ _ _ hk
+    · cases h
+
 end SpsdkVerif.Hab
